@@ -350,3 +350,10 @@ case("C17", "selection-skips-top-bin", "VIOLATION", [(MT, "\tmatched_loci = {'ch
 case("C17", "filter-not-applied-to-groups", "VIOLATION", [(MT, "gc_perc = {gc:numpy.nonzero(idxs & (gc_perc == gc))[0].tolist() for gc in unique_gc}", "gc_perc = {gc:numpy.nonzero(gc_perc == gc)[0].tolist() for gc in unique_gc}")], "SIGNAL")
 case("C16", "min-counts-le", "VIOLATION", [(IOF, "signal[target_idx].sum() < min_counts", "signal[target_idx].sum() <= min_counts")], "FILTER")
 case("C19", "csum-build-short", "VIOLATION", [(SQ, "\t\tfor j in range(1, l):\n\t\t\tX_csum[i, j] = X_csum[i, j-1] + X[i, j]", "\t\tfor j in range(1, l - 1):\n\t\t\tX_csum[i, j] = X_csum[i, j-1] + X[i, j]")], "CSUM")
+case("C11", "dp-char-loop-short", "VIOLATION", [(FI, "\t\t\t\tfor k in range(n):\n\t\t\t\t\tidx = j + int_log_pwm[k, i]", "\t\t\t\tfor k in range(n - 1):\n\t\t\t\t\tidx = j + int_log_pwm[k, i]")], "DP")
+case("C11", "dp-range-zero-start-spelling", "HOLDS", [(FI, "\tfor i in range(n):\n\t\tidx = int_log_pwm[i, 0] - smallest", "\tfor i in range(0, n):\n\t\tidx = int_log_pwm[i, 0] - smallest")])
+case("C12", "last-sequence-not-scanned", "VIOLATION", [(FI, "\t\tfor l in range(n_chroms):        ", "\t\tfor l in range(n_chroms - 1):        ")], "LOOPS")
+case("C12", "return-counts-inverted", "VIOLATION", [(FI, "\tif return_counts == True:", "\tif return_counts != True:")], "R-SIB")
+case("C12", "tensor-offsets-short", "VIOLATION", [(FI, "X_lengths = numpy.arange(X.shape[0]+1) * X.shape[-1]", "X_lengths = numpy.arange(X.shape[0]) * X.shape[-1]")], "LOOPS")
+case("C14", "offsets-scan-short", "VIOLATION", [(TT, "\t\tfor k in range(nt+nq-1):\n\t\t\tscore = t_sums[k]", "\t\tfor k in range(nt+nq-2):\n\t\t\tscore = t_sums[k]")], "LOOPS")
+case("C14", "histogram-skips-target-column", "VIOLATION", [(TT, "\t\tk = nq - i - 1\n\t\tfor j in range(Y.shape[-1]):", "\t\tk = nq - i - 1\n\t\tfor j in range(Y.shape[-1] - 1):")], "LOOPS")
